@@ -138,7 +138,8 @@ def plan(ctx):
         terms.append((fam, rnd.randint(60, 120), 1.0 - rnd.random() ** 3 * 0.2, rnd.uniform(-math.pi, math.pi), 1.0, k % 2 == 0))
     for k in range(48 if quick else 600):
         fam = R.FAMILIES[k % 3]
-        N = [1, 2, 37, 36][k // 3] if k < 12 else rnd.randint(1, 37)
+        # (every admissible length of coefficient vector, the full 120 included)
+        N = [1, 2, 37, 36, 120, 119, 80, 120][k // 3] if k < 24 else (rnd.randint(38, 120) if k % 4 == 0 else rnd.randint(1, 37))
         lins.append((fam, R.random_coeffs(rnd, N), R.random_coeffs(rnd, N), rnd.uniform(-3, 3), rnd.uniform(-3, 3),
                      math.sqrt(rnd.random()), rnd.uniform(-math.pi, math.pi), k % 2 == 1))
     for k in range(66 if quick else 900):
